@@ -21,7 +21,7 @@ sensitivity:  s/0x13 => {/0x13 if false => {/@src/xlsb/mod.rs
 LEVEL = "model_checking"
 
 QUICK = ["q_refs", "q_lits", "q_deep"]
-THOROUGH = ["t_refs", "t_lits", "t_deep"]
+THOROUGH = ["t_refs", "t_lits", "t_deep", "t_wide"]
 
 
 def run(ctx):
